@@ -27,10 +27,12 @@ TRUSTED = ["tools/props/c13.py translate(): statement order in Thread::begin / b
            "harness/c13_handover_o3.cpp (interposed pthread_create, trap-flag single-stepping; x86-64 only)",
            "harness/vsched.h deterministic scheduler over the ASL_VERIF hook points in Thread.h (hooks: /verif/hooks_commits.txt)",
            "the trace acceptor in lean/Driver/C13.lean (maps hook events to model steps)"]
+ASSUMPTIONS_DROPPED = "no int overflow in i += n: the index is 64 bit since 14af174 / b417996"
 ASSUMPTIONS = ["pthread_create starts the function exactly once; pthread_join returns after the thread has exited and makes its writes visible",
                "sem_post/sem_wait and pthread_cond_wait/broadcast behave as POSIX specifies (modelled, not verified)",
                "volatile bool ready/finished flags are read and written atomically with sequential consistency (x86-64)",
-               "no int overflow in i += n (|i1| + nth < 2^31)"]
+               "gcc's -O3 code for other lambda shapes than the two probes keeps the order the barrier asks for (atomicFence() = __sync_synchronize() is a "
+               "compiler and hardware barrier by its documentation; the probes only confirm it on the emitted code)"]
 
 
 O3_PROBE = r"""
@@ -86,17 +88,29 @@ def asm_fenced(repo):
         lines = [l.strip() for l in m.group(2).split("\n") if l.strip() and not l.strip().startswith(".")]
         fence = store = None
         late = False
-        rdi_is_arg = True
+        aliases = {"rdi"}             # registers that hold the argument (the address of the creator's context)
+        def reads_ctx(l):
+            return any(re.search(r"-?\d*\(%%%s(,[^)]*)?\)\s*," % a, l) for a in aliases)
         for k, l in enumerate(lines):
             if re.match(r"(mfence|lock\b)", l) and store is None and fence is None:
                 fence = k
-            if store is None and re.match(r"movb\s+\$1,\s*-?\d*\(%rdi\)", l) and rdi_is_arg:
+                continue
+            if store is None and aliases and any(re.match(r"movb\s+\$1,\s*-?\d*\(%%%s\)" % a, l) for a in aliases):
                 store = k
                 continue
-            if rdi_is_arg and re.search(r"-?\d*\(%rdi\)\s*,", l) and (fence is not None or store is not None):
-                late = True          # a read based on the argument register after the barrier or after the store
-            if re.search(r",\s*%[re]di$", l) and not re.match(r"(test|cmp)", l):
-                rdi_is_arg = False
+            if reads_ctx(l) and (fence is not None or store is not None):
+                late = True          # a read of the context after the barrier or after the store
+            if fence is not None and store is None and re.search(r"\(%(?!rsp)[a-z0-9]+(,[^)]*)?\)\s*,", l):
+                late = True          # any load from memory other than the own stack between the barrier and the store
+            mv = re.match(r"movq?\s+%(\w+),\s*%(\w+)$", l)
+            if mv and mv.group(1) in aliases:
+                aliases.add(mv.group(2))
+            else:
+                md = re.search(r",\s*%(\w+)$", l)
+                if md and not re.match(r"(test|cmp)", l):
+                    d = md.group(1)
+                    aliases.discard(d)
+                    aliases.discard("r" + d[1:] if d.startswith("e") else d)
         if store is None:
             raise TranslateError("no store of `ready` found in %s at -O3" % name)
         res[name] = (fence is not None and fence < store and not late)
@@ -366,9 +380,17 @@ LEVEL_TEXT = ("Proved in Lean 4: for all integers i0, i1 and every nth >= 1 the 
               "reference, neither a polling-and-deleting owner nor a self-deleting object ever leads to a use of the deleted object or "
               "the released state, and the state's count is exactly (object alive) + (thread not over) (thread_end_safe; "
               "flag_first_unsafe is the code before 8766189). That the source has the barrier, that g++ -O3 keeps every context read "
-              "before it, and the statement order in Thread::begin are regenerated obligations (handover_fenced_in_source, "
+              "before it IN THE TWO PROBE INSTANTIATIONS the translator compiles (a lambda thread with five captures, a parallel_for "
+              "body), and the statement order in Thread::begin are regenerated obligations (handover_fenced_in_source, "
               "handover_fenced_at_O3, thread_end_order).")
-LEVEL_NOTE = ("The hook points act as compiler barriers, so the scheduler harness cannot see what the optimiser does between two of them: "
+LEVEL_NOTE = ("No model, K only (the driver answers the constant ran=1/fin=1 or `ok`): Thread copies and assignment and the shared, "
+              "reference-counted State_ behind them (kinds cpy, cpd, cpj, sst, reap at free-running schedules; the End model counts only "
+              "the object's and the thread's reference and starts when the worker already holds its own), and the timed "
+              "Condition::wait(timeout) (`condt`; the condition theorems are about the untimed wait). fenced_handover_never_stale is a "
+              "statement about what a barrier means in the model (the store is enabled only after the loads); its content for the code is "
+              "the regenerated instruction-order obligation, checked on two probe instantiations with register aliases of the argument "
+              "tracked and no non-stack load allowed between the barrier and the store. "
+              "The hook points act as compiler barriers, so the scheduler harness cannot see what the optimiser does between two of them: "
               "that is covered only by the -O3 assembly check, the three injected -O3 schedules and the Fence model. "
               "Trusted: pthread/sem/cond semantics as modelled, sequential consistency of the volatile flags, the scheduler harness and "
               "the trace acceptor. The semaphore and condition models are abstractions of the POSIX primitives (asl only wraps them) "
